@@ -349,7 +349,10 @@ def run(names=None):
         if names and n not in names:
             continue
         try:
-            ok, detail = f()
+            import nv
+
+            with nv.guard(120):  # interpreted mode only: a case that never returns is a failure of the case, within two minutes
+                ok, detail = f()
         except Exception as e:  # an exception in the real code is a failure of the case, not of the harness
             ok, detail = False, f"exception {type(e).__name__}: {e}"
         out[n] = {"ok": bool(ok), "detail": detail, "properties": props}
